@@ -43,7 +43,11 @@ def fault_disp():
         st.builds(lambda t: {"b": "suspend_raise", "t": t}, times),
     )
     ys = st.one_of(st.none(), P.sv_strategy(), st.lists(P.sv_strategy(), min_size=1, max_size=2))
-    return st.builds(lambda e, y, x: {"enter": e, "yields": y, "exit": x}, beh, ys, beh)
+    # an exit that returns True ("handled") must not make the scope swallow anything
+    exit_beh = st.one_of(beh, beh, beh, st.just({"b": "ok", "ret": True}))
+    return st.builds(
+        lambda e, y, x, a: {"enter": e, "yields": y, "exit": x, "as": a}, beh, ys, exit_beh, st.sampled_from(["list", "list", "iter"])
+    )
 
 
 def program(disp_faults: bool = True, body_raises: bool = True, max_leaves: int = 6, top_spawn: bool = False):
